@@ -61,7 +61,9 @@ def symbol(cls):
     original_new = find_original_new(cls)
     symbols_registry.append(cls)
 
-    def symbolic_new(symbolic_cls, *args, **kwargs):
+    # (the parameters of these functions are positional-only: **kwargs carries the user's field names, and a class may well
+    # have a field called `domain` or `symbolic_cls`)
+    def symbolic_new(symbolic_cls, /, *args, **kwargs):
         predicate_type = PredicateType.SubClassOfPredicate if issubclass(symbolic_cls, Predicate) else None
         node = SymbolicExpression._current_parent_()
         args = bind_first_argument_of_predicate_if_in_query_context(node, predicate_type, *args)
@@ -82,7 +84,7 @@ def symbol(cls):
                                                                        **kwargs)
             return An(Entity(expression, [var])) if expression else var
 
-    def hybrid_new(symbolic_cls, *args, **kwargs):
+    def hybrid_new(symbolic_cls, /, *args, **kwargs):
         if in_symbolic_mode():
             return symbolic_new(symbolic_cls, *args, **kwargs)
         else:
@@ -133,7 +135,7 @@ def update_query_child_expression_if_in_query_context(node: SymbolicExpression,
             node._child_._child_ = var
 
 
-def update_domain_and_kwargs_from_args(symbolic_cls: Type, *args, **kwargs):
+def update_domain_and_kwargs_from_args(symbolic_cls: Type, /, *args, **kwargs):
     """
     Set the domain if provided as the first argument and update the kwargs with the remaining arguments.
 
@@ -160,7 +162,7 @@ def update_domain_and_kwargs_from_args(symbolic_cls: Type, *args, **kwargs):
 
 
 def extract_selected_variable_and_expression(symbolic_cls: Type, domain: Optional[From] = None,
-                                             predicate_type: Optional[PredicateType] = None, **kwargs):
+                                             predicate_type: Optional[PredicateType] = None, /, **kwargs):
     """
     :param symbolic_cls: The constructed class.
     :param domain: The domain source for the values of the variable by.
@@ -193,7 +195,7 @@ def extract_selected_variable_and_expression(symbolic_cls: Type, domain: Optiona
 
 
 
-def instantiate_class_and_update_cache(symbolic_cls: Type, original_new: Callable, *args, **kwargs):
+def instantiate_class_and_update_cache(symbolic_cls: Type, original_new: Callable, /, *args, **kwargs):
     """
     :param symbolic_cls: The constructed class.
     :param original_new: The original class __new__ method.
